@@ -128,3 +128,15 @@ U("c10_table_link_label", ["C10"], "h_table_link", ["C10/table_link.c"], ["write
   cbmc_flags=["--unwind", "70", "--unwinding-assertions"], bounds={"caption paragraph": "[caption], [caption][label] or [caption] [label]"},
   functions=["process_table_to_link", "d_string_new", "d_string_append", "d_string_free"], callees={"table_has_caption, label_from_token, link_new, stack_push": "contract stubs recording their arguments"},
   min_obligations=10, timeout=300, cost=10, assumptions=[NOFAIL])
+
+# ---- the citation call site: id="cnref:N" iff first use, with or without a locator; the locator goes through the escaper
+U("c10_citation_call_id", ["C10", "C08"], "h_citation_call", ["C10/citation_call.c"], ["html.c"], plain=True, lib=("lib/libc_models.c",), kind="finite",
+  defines=["-DI18N_DISABLED=1"], drop_bodies=["mmd_print_string_html", "mmd_export_token_tree_html"],
+  pre_instrument=["--remove-function-body-regex", "^(?!mmd_export_token_html$|mmd_print_string_html$|mmd_export_token_tree_html$|text_inside_pair$|label_from_string$|citation_from_bracket$|d_string_append.*$|my_strdup$|__CPROVER_file_local_html_c_my_strdup$|has$|strcmp$|strlen$|strcpy$|h_citation_call$|mk$|verif_.*$|__CPROVER.*$).*",
+                  "--generate-function-body", "^(?!__CPROVER_|malloc$|free$|verif_).*$", "--generate-function-body-options", "nondet-return"],
+  cbmc_flags=["--object-bits", "12", "--unwind", "102", "--unwinding-assertions"], checks=["--no-standard-checks"],
+  bounds={"token": "PAIR_BRACKET_CITATION, or PAIR_BRACKET followed by it (locator)", "locator text": "any non-empty string of <= 2 bytes", "citation number": "-1 or 1..999", "first use / re-use": "both"},
+  functions=["mmd_export_token_html (arms PAIR_BRACKET_CITATION / PAIR_BRACKET as locator)"],
+  callees={"citation_from_bracket": "contract stub: answers N (or -1) and pushes on used_citations on a first use", "text_inside_pair, label_from_string": "contract stubs", "mmd_print_string_html": "contract stub recording its argument (its contract: esc_string_html)",
+           "d_string_append_printf": "stub parsing the format: anchor / id / %s arguments", "every other callee": "body removed, nondet return value"},
+  min_obligations=5, timeout=300, cost=15, assumptions=[NOFAIL, "configuration -DI18N_DISABLED", "memory safety of the arm is not claimed by this unit (standard checks off: callees are havocked)"])
